@@ -1,11 +1,11 @@
 SPECIFICATION FairSpec
 CONSTANTS
-  Threads = {t1, t2, t3}
+  Threads = {t1, t2}
   Locks = {l1, l2}
   None = None
   MaxReq = 2
-  MaxRec = 1
-  Budget = 2
+  MaxRec = 0
+  Budget = 1
   Multi = {t1}
 INVARIANTS
   TypeOK
